@@ -650,14 +650,141 @@ fn run_fd(t: &mut Tape, cx: &mut Cx) -> Result<(), String> {
     Ok(())
 }
 
+/// xen build: the volatile buffer is a window of an emulated region (on-demand grant regions have
+/// no host pointer: the adapter has to keep the temporary mapping alive across the system call /
+/// the copy); the std twin uses an ordinary buffer; the region is then read back through the
+/// device file.
+#[cfg(feature = "xen")]
+fn run_xen_buffers(t: &mut Tape, cx: &mut Cx) -> Result<(), String> {
+    use crate::xen_emul::{build as xbuild, gen_kind, reset, Kind as XKind};
+    use std::os::unix::fs::FileExt;
+    use vm_memory::GuestMemoryRegion;
+    reset();
+    let kind = gen_kind(t);
+    let size = t.pick(&[4096usize, 4096 + 40, 100, 2 * 4096]);
+    let xr = xbuild::<()>(kind, 0x1000 * (1 + t.below(3)), size)?;
+    if kind == XKind::GrantOnDemand {
+        cx.nt("xen_on_demand_buffer");
+    }
+    let adapter = t.below(6);
+    let slen = t.idx(41);
+    let content = t.bytes(slen);
+    let ncalls = 1 + t.idx(4);
+    note!(cx, "{:?} region of {} bytes; adapter {} with {} bytes", kind, size, ["File read", "File write", "UnixStream read", "UnixStream write", "&[u8] read", "Vec write"][adapter as usize], slen);
+    let mut vf = memfd(0);
+    let mut sf = memfd(0);
+    let (mut va, mut vb) = std::os::unix::net::UnixStream::pair().map_err(|e| e.to_string())?;
+    let (mut sa, mut sb) = std::os::unix::net::UnixStream::pair().map_err(|e| e.to_string())?;
+    let mut vsrc: &[u8] = &content;
+    let mut ssrc: &[u8] = &content;
+    let mut vvec: Vec<u8> = Vec::new();
+    let mut svec: Vec<u8> = Vec::new();
+    match adapter {
+        0 => {
+            vf.write_all_at(&content, 0).map_err(|e| e.to_string())?;
+            sf.write_all_at(&content, 0).map_err(|e| e.to_string())?;
+        }
+        2 => {
+            vb.write_all(&content).map_err(|e| e.to_string())?;
+            sb.write_all(&content).map_err(|e| e.to_string())?;
+            vb.shutdown(std::net::Shutdown::Write).map_err(|e| e.to_string())?;
+            sb.shutdown(std::net::Shutdown::Write).map_err(|e| e.to_string())?;
+        }
+        _ => {}
+    }
+    for c in 0..ncalls {
+        let bl = buflen(t);
+        // window: anywhere, or straddling the page boundary of a multi-page region
+        let off = if size > 4096 && t.flag() { 4096 - t.idx(bl + 1).min(4096) } else { t.idx(size - bl.min(size) + 1) };
+        let bl = bl.min(size - off);
+        let exact = t.flag();
+        let reading = adapter % 2 == 0;
+        let seed = t.word() as u8;
+        let init: Vec<u8> = (0..size).map(|i| if reading { FILLB } else { seed.wrapping_add((i as u8).wrapping_mul(29)) }).collect();
+        xr.raw_write(&init);
+        let mut sbuf = init[off..off + bl].to_vec();
+        let win = xr.region.get_slice(vm_memory::MemoryRegionAddress(off as u64), bl).map_err(|e| format!("get_slice: {:?}", e))?;
+        let what = format!("call {}: {}{} with a buffer of {} bytes at region offset {:#x}", c, if reading { "read" } else { "write" }, if exact { "_exact/_all" } else { "" }, bl, off);
+        note!(cx, "{}", what);
+        classify(cx, bl, usize::MAX, c, false);
+        let cont = if reading {
+            let mut w = win;
+            if exact {
+                let (rv, rs) = match adapter {
+                    0 => (vf.read_exact_volatile(&mut w), sf.read_exact(&mut sbuf)),
+                    2 => (va.read_exact_volatile(&mut w), sa.read_exact(&mut sbuf)),
+                    _ => (vsrc.read_exact_volatile(&mut w), ssrc.read_exact(&mut sbuf)),
+                };
+                cmp_unit(&what, &rv, &rs)?
+            } else {
+                let (rv, rs) = match adapter {
+                    0 => (vf.read_volatile(&mut w), sf.read(&mut sbuf)),
+                    2 => (va.read_volatile(&mut w), sa.read(&mut sbuf)),
+                    _ => (vsrc.read_volatile(&mut w), ssrc.read(&mut sbuf)),
+                };
+                cmp_count(&what, &rv, &rs)?.is_some()
+            }
+        } else if exact {
+            let (rv, rs) = match adapter {
+                1 => (vf.write_all_volatile(&win), sf.write_all(&sbuf)),
+                3 => (va.write_all_volatile(&win), sa.write_all(&sbuf)),
+                _ => (vvec.write_all_volatile(&win), svec.write_all(&sbuf)),
+            };
+            cmp_unit(&what, &rv, &rs)?
+        } else {
+            let (rv, rs) = match adapter {
+                1 => (vf.write_volatile(&win), sf.write(&sbuf)),
+                3 => (va.write_volatile(&win), sa.write(&sbuf)),
+                _ => (vvec.write_volatile(&win), svec.write(&sbuf)),
+            };
+            cmp_count(&what, &rv, &rs)?.is_some()
+        };
+        if !cont {
+            // after a failed call buffer contents and stream state are unspecified by std
+            cx.count("sequence_ended_by_failed_call", 1);
+            return Ok(());
+        }
+        // the region as the device sees it: the window holds what std put into its buffer,
+        // everything else is untouched
+        let now = xr.raw_read();
+        let mut want = init.clone();
+        want[off..off + bl].copy_from_slice(&sbuf);
+        ensure!(now == want, "{}: region contents differ from the std twin (first difference at region offset {:#x})", what, now.iter().zip(&want).position(|(a, b)| a != b).unwrap_or(0));
+        ensure!(crate::xen_emul::live().len() <= 1, "{}: temporary windows remain mapped: {:x?}", what, crate::xen_emul::live());
+    }
+    // what arrived at the sinks
+    match adapter {
+        1 => ensure!(pread_all(&vf, 0, 4096) == pread_all(&sf, 0, 4096), "file contents differ between the volatile adapter and std"),
+        3 => {
+            drop(va);
+            drop(sa);
+            let (mut gv, mut gs) = (Vec::new(), Vec::new());
+            vb.read_to_end(&mut gv).map_err(|e| e.to_string())?;
+            sb.read_to_end(&mut gs).map_err(|e| e.to_string())?;
+            ensure!(gv == gs, "bytes received over the socket differ: volatile {} vs std {}", hexs(&gv), hexs(&gs));
+        }
+        5 => ensure!(vvec == svec, "vector contents differ: volatile {} vs std {}", hexs(&vvec), hexs(&svec)),
+        0 => ensure!(vf.stream_position().map_err(|e| e.to_string())? == sf.stream_position().map_err(|e| e.to_string())?, "file positions differ"),
+        4 => ensure!(vsrc.len() == ssrc.len(), "remaining source lengths differ: volatile {} vs std {}", vsrc.len(), ssrc.len()),
+        _ => {}
+    }
+    Ok(())
+}
+
+#[cfg(not(feature = "xen"))]
+fn run_xen_buffers(_t: &mut Tape, _cx: &mut Cx) -> Result<(), String> {
+    Ok(())
+}
+
 pub fn property() -> Property {
     Property {
         id: "C13",
-        rule: "a case = one adapter (&[u8], Cursor<&[u8]>, Cursor<Vec<u8>>, &mut [u8], Vec<u8>, Cursor<&mut [u8]>; File, UnixStream, pipe ends as OwnedFd/BorrowedFd, loopback TcpStream) with stream content of 0..40 bytes, cursor positions incl. at/after the end and near u64::MAX, and a sequence of 1..8 calls mixing the plain and the exact variants with buffer lengths 0..24 dense around 7/8/9 at any alignment inside canaries; the identical sequence runs on the std::io counterpart with an ordinary buffer; compared after every call: result (count or error kind), bytes landed, untouched tail, canaries, stream state (remaining length / position / sink contents / file position); non-trivial = a call after a short transfer, a stream at its end, a buffer longer than what is left, a cursor past the end, a buffer length in 7..=9, a socket round trip; distinct = decoded (adapter, content, sequence)",
+        rule: "a case = one adapter (&[u8], Cursor<&[u8]>, Cursor<Vec<u8>>, &mut [u8], Vec<u8>, Cursor<&mut [u8]>; File, UnixStream, pipe ends as OwnedFd/BorrowedFd, loopback TcpStream) with stream content of 0..40 bytes, cursor positions incl. at/after the end and near u64::MAX, and a sequence of 1..8 calls mixing the plain and the exact variants with buffer lengths 0..24 dense around 7/8/9 at any alignment inside canaries; the identical sequence runs on the std::io counterpart with an ordinary buffer; xen build: File / UnixStream / &[u8] / Vec adapters with the volatile buffer inside an emulated region (incl. grant regions mapped on demand, windows straddling a page boundary), the region read back through the device file; compared after every call: result (count or error kind), bytes landed, untouched tail, canaries, stream state (remaining length / position / sink contents / file position); non-trivial = a call after a short transfer, a stream at its end, a buffer longer than what is left, a cursor past the end, a buffer length in 7..=9, a socket round trip; distinct = decoded (adapter, content, sequence)",
         assumptions: &["after a failed exact call, position and buffer content are unspecified by std and are not compared (sequence ends, counted)", "TCP segment boundaries are not deterministic: totals are compared", "real EINTR is not injected (C14 scripts it)"],
         subchecks: vec![
             SubCheck { name: "memory", builds: &[Build::Std], kind: Kind::Random { quick: 60_000, thorough: 3_000_000, max_words: 64 }, run: run_memory },
             SubCheck { name: "fd", builds: &[Build::Std], kind: Kind::Random { quick: 4_000, thorough: 120_000, max_words: 64 }, run: run_fd },
+            SubCheck { name: "xen_buffers", builds: &[Build::Xen], kind: Kind::Random { quick: 4_000, thorough: 120_000, max_words: 64 }, run: run_xen_buffers },
         ],
     }
 }
